@@ -230,6 +230,15 @@ let () =
           incr nops;
           ignore (apply (OMgmtCap (n_of_dec u))); spec := c_mgmtcap !spec (n_of_dec u); last_op := "mcap " ^ u;
           stat (if String.length u > 18 then "mgmt_capacity_out_of_range" else "mgmt_capacity")
+      | ["op"; "rmstale"; n] ->
+          incr nops;
+          (* the handle's entry is in no node: allocation number 0 is never live *)
+          ignore (apply (OStaleRemove (N0, name_of_string n))); last_op := "rmstale " ^ n; stat "remove_stale_handle"
+      | ["obs"; "rmstale"; r] ->
+          if r <> "0" then begin
+            oracle "C08" "stale-remove-true" (Printf.sprintf "RemoveInterest on an entry that is no longer in the table returned true (after [%s])" !last_op);
+            oracle "C07" "stale-remove-true" (Printf.sprintf "RemoveInterest on an entry that is no longer in the table returned true (after [%s])" !last_op)
+          end
       | ["op"; "ins"; n; w; f] ->
           incr nops;
           let nn = name_of_string n and w' = n_of_int (int_of_string w) and f' = ms_ns (opt_n f) in
